@@ -762,3 +762,84 @@ Lemma c_after_close : forall takes s st p,
   c_step takes (mk_cs s st false) (CSend p) = (mk_cs s st false, [OSent (Exc AttributeErr)]) /\
   fst (c_step takes (mk_cs s st true) CClose) = mk_cs s st false.
 Proof. intros. repeat split. Qed.
+
+(* ================================================================ several writers on one transport *)
+Lemma Merge_map {A B} (f : A -> B) : forall qss ws, Merge qss ws ->
+  forall pss, qss = map (map f) pss -> exists ps, Merge pss ps /\ ws = map f ps.
+Proof.
+  induction 1 as [qss Hall | pre y l post out Hm IH]; intros pss E.
+  - exists []. split; [|reflexivity]. constructor. subst qss.
+    rewrite Forall_forall in *. intros l Hl. specialize (Hall (map f l) (in_map _ _ _ Hl)).
+    destruct l; [reflexivity|discriminate].
+  - symmetry in E. apply map_eq_app in E as (pre0 & rest0 & -> & Epre & Erest).
+    destruct rest0 as [|l0 post0]; [discriminate|]. cbn [map] in Erest. injection Erest as El Epost.
+    destruct l0 as [|x l0]; [discriminate|]. cbn [map] in El. injection El as <- <-.
+    destruct (IH (pre0 ++ l0 :: post0)) as (ps & Hps & ->).
+    { rewrite map_app. cbn [map]. now rewrite Epre, Epost. }
+    exists (x :: ps). split; [now constructor|reflexivity].
+Qed.
+
+Lemma Merge_Forall {A} (P : A -> Prop) : forall pss ps, Merge pss ps ->
+  Forall (Forall P) pss -> Forall P ps.
+Proof.
+  induction 1 as [|pre x l post out Hm IH]; intros HF; [constructor|].
+  apply Forall_app in HF as [Hpre Hrest]. inversion Hrest as [|? ? Hxl Hpost]; subst.
+  inversion Hxl; subst. constructor; [assumption|]. apply IH. apply Forall_app. split; [assumption|]. now constructor.
+Qed.
+
+(* every frame one atomic write  ==>  whatever the interleaving of the writers, the stream re-assembles, under any
+   fragmentation, to an interleaving of their packet sequences *)
+Lemma concurrent_writers : forall pss ws, Forall (Forall wf_cpx) pss ->
+  Merge (map (map frame) pss) ws ->
+  exists ps, Merge pss ps /\ concat ws = concat (map frame ps) /\
+    forall s, chunking s (concat ws) -> exists s', read_n (length ps) s = (map Ok ps, s') /\ concat s' = [].
+Proof.
+  intros pss ws Hwf Hm. destruct (Merge_map frame _ _ Hm pss eq_refl) as (ps & Hps & ->).
+  exists ps. repeat split; auto. intros s Hs. apply stream_reassembly; [|assumption].
+  exact (Merge_Forall _ _ _ Hps Hwf).
+Qed.
+
+Lemma take_from_split {A} : forall i (rest : list (list A)) y rest', take_from i rest = Some (y, rest') ->
+  exists pre t post, rest = pre ++ (y :: t) :: post /\ rest' = pre ++ t :: post.
+Proof.
+  induction i as [|i IH]; intros rest y rest' H.
+  - destruct rest as [|[|z t] r]; try discriminate. cbn in H. injection H as <- <-. exists [], t, r. auto.
+  - destruct rest as [|l r]; [discriminate|]. cbn [take_from] in H.
+    destruct (take_from i r) as [[z r']|] eqn:E; [|destruct l; discriminate].
+    assert (H' : Some (z, l :: r') = Some (y, rest')) by (destruct l; exact H). injection H' as <- <-.
+    destruct (IH _ _ _ E) as (pre & t & post & -> & ->). exists (l :: pre), t, post. auto.
+Qed.
+
+Lemma take_from_Merge {A} : forall i (pss : list (list A)) x pss' out,
+  take_from i pss = Some (x, pss') -> Merge pss' out -> Merge pss (x :: out).
+Proof.
+  intros i pss x pss' out Ht Hm. destruct (take_from_split _ _ _ _ Ht) as (pre & t & post & -> & ->).
+  now constructor.
+Qed.
+
+Lemma merge_by_sound {A} : forall order (pss : list (list A)) ps, merge_by order pss = Some ps -> Merge pss ps.
+Proof.
+  induction order as [|i order IH]; intros pss ps H; cbn [merge_by] in H.
+  - destruct (forallb _ pss) eqn:E; [|discriminate]. injection H as <-. constructor.
+    rewrite forallb_forall in E. rewrite Forall_forall. intros l Hl. specialize (E l Hl). destruct l; [reflexivity|discriminate].
+  - destruct (take_from i pss) as [[x pss']|] eqn:Et; [|discriminate].
+    destruct (merge_by order pss') as [out|] eqn:Em; [|discriminate]. injection H as <-.
+    eapply take_from_Merge; eauto.
+Qed.
+
+(* a writePacket that issues two writes (length, then routing+payload) is torn apart by a second writer:
+   A = CRTP packet, B = APP packet; interleaving lenA, lenB, wireB, wireA *)
+Definition tornA : cpx := new_cpx F_CRTP T_STM32 T_HOST [0xFC; 1; 2; 3].
+Definition tornB : cpx := new_cpx 5 4 T_HOST [9; 9].
+Lemma split_writes_torn :
+  exists ws, Merge [split_writes tornA; split_writes tornB] ws /\
+    fst (read_n 2 [concat ws]) <> [Ok tornA; Ok tornB] /\ fst (read_n 2 [concat ws]) <> [Ok tornB; Ok tornA].
+Proof.
+  exists [le_bytes 2 6; le_bytes 2 4; wire_data tornB; wire_data tornA]. split.
+  - apply (merge_step [] _ _ [split_writes tornB]). cbn [app].
+    apply (merge_step [[wire_data tornA]] _ _ []). cbn [app].
+    apply (merge_step [[wire_data tornA]] _ _ []). cbn [app].
+    apply (merge_step [] _ _ [[]]). cbn [app].
+    constructor. repeat constructor.
+  - split; vm_compute; discriminate.
+Qed.
